@@ -162,7 +162,7 @@ harness("C08.e1.floor_ceil_round.spec", "C08,C09", "vk_c08_floor_ceil_round",
             "assert!(f <= a && a < f + 1.0 && f == (f as i64) as f64);\n"
             "assert!(c >= a && a > c - 1.0 && c == (c as i64) as f64);\n"
             "assert!((r - a).abs() <= 0.5 && r == (r as i64) as f64);\n"
-            "if (a - f) == 0.5 { assert!(r.abs() >= a.abs()); } // ties away from zero\n"
+            "if a == f + 0.5 { assert!(r.abs() >= a.abs()); } // exact ties round away from zero\n"
             "let b: u8 = kani::any();\nassert!(floor::byte(b) == b && ceil::byte(b) == b && round::byte(b) == b);"),
         budget=900, desc="floor/ceil/round on |x| < 2^52 (beyond that every float is an integer)")
 harness("C08.e1.floor_ceil_round.reach", "C08", "vk_c08_fcr_reach",
@@ -177,11 +177,12 @@ harness("C08.e1.arith.spec", "C08,C09", "vk_c08_arith",
             "assert!(same(add::num_num(a, b), b + a));\n"
             "assert!(same(sub::num_num(a, b), b - a)); // the first is subtracted from the second\n"),
         desc="add / subtract (argument order per documentation)")
-harness("C08.e1.muldiv.spec", "C08,C09", "vk_c08_muldiv",
-        ind("let a = anyf();\nlet b = anyf();\n"
-            "assert!(same(mul::num_num(a, b), b * a));\n"
-            "assert!(same(div::num_num(a, b), b / a)); // the second is divided by the first\n"),
-        budget=900, desc="multiply / divide (argument order per documentation)")
+harness("C08.e1.mul.spec", "C08,C09", "vk_c08_mul",
+        ind("let a = anyf();\nlet b = anyf();\nassert!(same(mul::num_num(a, b), b * a));"),
+        budget=3000, tier="thorough", desc="multiply")
+harness("C08.e1.div.spec", "C08,C09", "vk_c08_div",
+        ind("let a = anyf();\nlet b = anyf();\nassert!(same(div::num_num(a, b), b / a)); // the second is divided by the first"),
+        budget=3000, tier="thorough", desc="divide (argument order per documentation)")
 harness("C08.e1.cmp.spec", "C08,C15,C09", "vk_c08_cmp",
         ind("let a = anyf();\nlet b = anyf();\n"
             "let (lt, le, gt, ge, eq, ne) = (other_is_lt::num_num(a, b), other_is_le::num_num(a, b), other_is_gt::num_num(a, b), other_is_ge::num_num(a, b), is_eq::num_num(a, b), is_ne::num_num(a, b));\n"
